@@ -15,7 +15,7 @@ SHARDS = {"quick": 4, "thorough": 16}
 REQUIRED = ["model-compare", "canonical-contract", "reject-or-canonical"]
 RULE = ("Bounded-exhaustive: every ordered list of 1..3 specs (forms a-b, a-, -s) over a small number domain x every "
         "file size in the bound (quick: <=2 specs over 0..8 x sizes 0..7, 3 specs over 0..5 x sizes 0..6; thorough: 3 specs "
-        "over 0..8 x sizes 0..7, 4 specs over 0..3 x sizes 0..4), plus random 4-12-spec lists over sizes up to 10^6 with "
+        "over 0..8 x sizes 0..7, 4 specs over 0..4 x sizes 0..5), plus random 4-12-spec lists over sizes up to 10^6 with "
         "OWS/empty-element variants, plus non-grammar text (garbage, other units, huge digit strings). Non-trivial = >=2 "
         "specs of which two overlap/touch/nest, or a clipped last-byte / suffix form, or a rejected header; enumerated cases "
         "are distinct by construction, random ones are de-duplicated by (header,size).")
@@ -136,7 +136,7 @@ def run(ctx):
     if ctx.quick:
         plans = [(1, range(9), range(8)), (2, range(9), range(8)), (3, range(6), range(7))]
     else:
-        plans = [(1, range(9), range(8)), (2, range(9), range(8)), (3, range(9), range(8)), (4, range(4), range(5))]
+        plans = [(1, range(9), range(8)), (2, range(9), range(8)), (3, range(9), range(8)), (4, range(5), range(6))]
     idx = 0
     for k, nums, sizes in plans:
         F = forms(nums)
@@ -155,7 +155,7 @@ def run(ctx):
     ctx.extra["exhaustive_bound"] = [f"{k} specs over 0..{max(n)} x sizes 0..{max(s)}" for k, n, s in plans]
 
     # ---- random long range sets, whitespace variants
-    n_rand = ctx.scale(40_000, 1_600_000)
+    n_rand = ctx.scale(40_000, 4_000_000)
     for i in range(n_rand):
         size = rng.choice([0, 1, 2, 9, 10, 99, 100, 1000, 4623, 65536, 10 ** 6, rng.randrange(1, 10 ** 6)])
         k = rng.randrange(1, 13)
